@@ -15,6 +15,7 @@ TIER_SIZES = {
     "tight": (24, 160),
     "adv": (32, 240),
     "perm": (24, 200),
+    "join": (40, 300),      # join-heavy workflows, fractional transfer waits
     "tier": (20, 160),      # hot buffer beyond its tiering threshold (known findings live here)
     "overlap": (8, 40),
 }
@@ -35,6 +36,9 @@ def jobs(tier, seed):
     rng = random.Random(f"adv-{seed}")
     for i in range(TIER_SIZES["adv"][idx]):
         out.append(("adv", gen.random_cfg(rng, alg="adv", family="roomy", maxn=3), {}))
+    rng = random.Random(f"join-{seed}")
+    for i in range(TIER_SIZES["join"][idx]):
+        out.append(("join", gen.random_cfg(rng, alg=["queue", "batch", "plan", "greedy"][i % 4], family="join"), {}))
     rng = random.Random(f"tier-{seed}")
     for i in range(TIER_SIZES["tier"][idx]):
         out.append(("tier", gen.random_cfg(rng, alg=algs[i % 3], family="tier"), {}))
